@@ -201,6 +201,9 @@ def handle (op : String) (args : List String) : String :=
     match pBool t, bytesOfHex w with
     | some t, some w => errPrefix (sParsedResp (parseResponse t w))
     | _, _ => "bad-op"
+  -- `e2el`: the same call answered through the long-poll path (StartLongpoll / FinishLongpoll / SendLongpollResponse);
+  -- the property does not distinguish the two, neither does the model
+  | "e2el", a :: t :: b :: rest
   | "e2e", a :: t :: b :: rest =>
     match pU64 a, pBool t, bytesOfHex b, pReqExtra (rest.take 14), rest.drop 14 with
     | some a, some t, some b, some ex, er :: rb :: rex =>
